@@ -143,8 +143,99 @@ PROFILES = {
     "C18": dict(weights=None, quirks=[]),
 }
 
+# ---- C01, normal mode: the packet capacity changes (MSG_PKT_CAPACITY notices from the interface, any value 0..255)
+# while messages of all sizes wait in the packet buffer; validated against Trace_Track (TLl / TUp / THl / TFlush with
+# the per-message capacity stamp)
+CAP_EXTRA = ["bidib_send_cs_drive", "bidib_send_bm_mirror_multiple", "bidib_send_sys_clock", "bidib_send_lc_port_query_all",
+             "bidib_send_bm_mirror_occ", "bidib_send_bm_mirror_free", "bidib_send_cs_accessory", "bidib_send_string_set", "bidib_send_vendor_set"]
+
+def cap_session(rng, sid, cfgdir, nev, directed=False):
+    from vlib import gen_track as gt, cfg as cfgmod
+    cfg = cfgmod.gen(rng, nboards=rng.choice([1, 2, 3]), ntrains=rng.choice([1, 2]))
+    paths = {}
+    for i, b in enumerate(cfg["boards"]):
+        paths[b["id"]] = [] if i == 0 else [i]
+    s = gt.Session(sid, cfg, cfgdir, paths=paths, full=False)
+    s.s.add("bus off")            # after the start-up the nodes say only what the script feeds
+    nodes = [list(p) for p in paths.values()] + [[9], [1, 200]]
+    sigs = g._sigs()
+    kinds = ["ll"] * 12 + ["cap"] * 4 + ["flush"] * 2 + ["hl"] * 3 + ["tick"] + ["up"] * 2
+    ZERO = ["bidib_send_bm_mirror_occ", "bidib_send_bm_mirror_free", "bidib_send_bm_mirror_multiple", "bidib_send_sys_clock", "bidib_send_lc_port_query_all"]
+    def valid(fn):
+        if fn == "bidib_send_sys_clock": return [rng.randrange(60), rng.randrange(128, 152), rng.randrange(64, 71), rng.randrange(192, 224)]
+        if fn == "bidib_send_bm_mirror_multiple":
+            k = rng.randrange(1, 9); return [rng.randrange(16) * 8, k * 8, [_bval(rng) for _ in range(k)]]
+        return gen_args(rng, fn, sigs[fn])
+    for _ in range(nev):
+        k = rng.choice(kinds)
+        if directed and rng.random() < 0.2:
+            # the capacity shrinks below what is waiting in the packet buffer, then more is sent
+            s.flush(); s.tick(3)
+            for n in nodes[:len(paths)]: s.up(n, 0x82, [0])             # nothing held back for any node
+            v1 = rng.choice([65, 100, 128, 200, 255]); s.up([], 0x8a, [v1])
+            total = 0; want = rng.randrange(40, v1 + 30)
+            while total < want:
+                fn = rng.choice(ZERO); n = rng.choice(nodes); a = valid(fn)
+                s.ll(fn, gt.na3(n), a); total += 8 + len(n)
+            s.up([], 0x8a, [rng.choice([0, 64, 64, 70, 100, v1 - 1, rng.randrange(256)])])
+            for _ in range(rng.randrange(1, 6)):
+                fn = rng.choice(ZERO); s.ll(fn, gt.na3(rng.choice(nodes)), valid(fn))
+            if rng.random() < 0.5: s.flush()
+            continue
+        if k == "ll":
+            if rng.random() < 0.5: fn, gen = rng.choice(g.MENU)
+            else:
+                fn = rng.choice(CAP_EXTRA); gen = lambda r, fn=fn: gen_args(r, fn, sigs[fn])
+            n = rng.choice(nodes)
+            for _ in range(rng.choice([1, 1, 3, 8])):           # bursts fill the packet
+                s.ll(fn, gt.na3(n), gen(rng))
+        elif k == "cap":
+            v = rng.choice([0, 20, 63, 64, 65, 80, 100, 128, 200, 255, rng.randrange(256)])
+            s.up([], 0x8a, [v])
+        elif k == "flush": s.flush()
+        elif k == "hl":
+            fn, sa, i = gt.rand_command(rng, s); s.hl(fn, sa, i)
+        elif k == "tick": s.tick(3)
+        else: s.up(rng.choice(nodes[:len(paths)]), 0x82, [0])
+    s.flush()
+    return s.end()
+
 def classify_ll(ev):
     return ev.get("fn", ev.get("e"))
+
+def _cap_stage(ctx, pid, thorough, rng, exe):
+    import tempfile, shutil
+    from vlib import gen_track as gt
+    tmp = tempfile.mkdtemp(prefix="vcap_", dir=check.TMP)
+    try:
+        sessions = [cap_session(rng, "cap%d" % i, os.path.join(tmp, "cap%d" % i), rng.choice([40, 80]), directed=(i % 2 == 0)) for i in range(160 if thorough else 24)]
+        res = drv.run(exe, [s.s for s in sessions], timeout=120)
+        items = []
+        for s in sessions:
+            rr = res.get(s.sid)
+            if rr is None or rr.status != "ok":
+                ctx.violation("session %s: library process ended with %s (code %s) while the packet capacity changed under pending messages" % (
+                    s.sid, rr.status if rr else "missing", rr.code if rr else "?"),
+                    {"kind": "crash", "script": s.s.text(), "config": s.cfg, "stderr": rr.stderr[-4000:] if rr else ""}); continue
+            ev, probs = gt.to_events(s, rr)
+            if probs:
+                ctx.note("session %s skipped: %s" % (s.sid, "; ".join(probs))); ctx.cov["skipped_sessions"] = ctx.cov.get("skipped_sessions", 0) + 1; continue
+            items.append((s, ev))
+            for e in ev:
+                ctx.cov["evaluations"] += 1
+                if e["e"] == "ll": ctx.distinct(("n-ll", e["fn"], "w" if e.get("w") else "-"))
+                elif e["e"] == "up" and e["ty"] == 0x8a: ctx.distinct(("cap", e["d"][0], "w" if e.get("w") else "-"))
+                else: ctx.distinct(("n-" + e["e"], "w" if e.get("w") else "-"))
+        cfgtext, _, _ = check.quirk_cfg("Trace_Track.cfg", pid)
+        rej = check.validate_scripts(ctx, "Trace_Track.tla", "_tc.cfg", items, timeout=1800, batch=8, extra_files={"_tc.cfg": cfgtext})
+        for s, ev, k, r in rej:
+            e = ev[k] if k < len(ev) else {}
+            what = "normal-mode execution %s (capacity notices under pending messages) is not a behaviour of the specification: event %d %s refused%s" % (
+                s.sid, k, json.dumps({x: e[x] for x in e if x not in ("st", "cfg")})[:500], (" / invariant %s violated" % r.violation) if r.violation else "")
+            ctx.violation(what, {"kind": "trace", "module": "Trace_Track.tla", "cfg": "Trace_Track.cfg", "script": s.s.text(), "config": s.cfg,
+                                 "events": ev, "refused_at": k})
+        ctx.cov["capacity_sessions"] = len(items)
+    finally: shutil.rmtree(tmp, ignore_errors=True)
 
 def run(pid, tier):
     ctx = check.Ctx(pid, tier)
@@ -257,6 +348,8 @@ def run(pid, tier):
         state = check.explain("Trace_Downlink.tla", "Trace_Downlink.cfg", ev, k)
         ctx.violation(what, {"kind": "trace", "module": "Trace_Downlink.tla", "cfg": "Trace_Downlink.cfg", "script": s.text(), "events": ev,
                              "refused_at": k, "spec_state_before": state})
+    if pid == "C01":
+        _cap_stage(ctx, pid, thorough, rng, exe)
     for s, ev in items[1:4]:
         ctx.sample({"script": s.sid, "events": ev[:12]})
     ctx.cov["rule"] = ("cases = events executed on the real library; distinct = distinct (call or uplink kind, message type, "
